@@ -81,7 +81,7 @@ def _block(gen, ep_stub, kind=None):
         pairs.append((rng.choice([b'', b'X-Upper', b'connection', b' sp', b'te', b':late']), rng.choice([b'', b'x', b'\xff\xfe', b'gzip'])))
     if rng.random() < 0.08:
         pairs.append((rng.choice([b'1', b'_', b'-', b'2-1', b'x1']), b'v'))
-    if kind == 'request' and rng.random() < 0.06:
+    if kind == 'request' and rng.random() < gen.P.get('adv_hostauth', 0.06):
         pairs = [(n, v) for n, v in pairs if n not in (b':authority', b'host')]
         a_, h_ = rng.choice([(b'', b'evil.example'), (b'example.com', b''), (b'a', b'a')])
         pairs.insert(0, (b':authority', a_))
@@ -131,7 +131,7 @@ def draw(gen):
             return None
         frames = []
     r_special = rng.random()
-    if r_special < 0.03:
+    if r_special < gen.P.get('adv_flood', 0.03):
         # CONTINUATION flood: a header block cut into very many (also empty) fragments, in one go
         sid = vt.hi_peer + 2 if (vt.hi_peer and victim_is_server) else (1 if victim_is_server else _sid(gen, vt, victim_is_server))
         n = rng.choice([3, 9, 65, 66, 70, 300, 1200])
@@ -149,12 +149,12 @@ def draw(gen):
             fr.append(C.mk_continuation(sid, piece, last and rng.random() < 0.8))
         raw = b''.join(f.serialize() for f in fr)
         return {'ev': 'inject', 'dir': d, 'pos': pos, 'bytes': raw}
-    if 0.07 <= r_special < 0.07 + gen.P.get('adv_ping_flood', 0.01) and not vt.closed:
+    if 0.5 <= r_special < 0.5 + gen.P.get('adv_ping_flood', 0.01) and not vt.closed:
         n = rng.choice([2, 3, 10, 63, 64, 65, 66, 129, 400])
         raw = b''.join(C.mk_ping(i.to_bytes(4, 'big') + b'fld' + bytes([rng.randrange(256)]), rng.random() < 0.1).serialize()
                        for i in range(n))
         return {'ev': 'inject', 'dir': d, 'pos': pos, 'bytes': raw}
-    if r_special < 0.07 and not vt.closed:
+    if gen.P.get('adv_flood', 0.03) <= r_special < gen.P.get('adv_flood', 0.03) + gen.P.get('adv_overflow', 0.04) and not vt.closed:
         # window arithmetic at the limit: lift one stream's send window to exactly 2^31-1, then (sometimes) raise
         # INITIAL_WINDOW_SIZE by one - the history-dependent overflow clause
         live = [s for s in vt.streams.values() if s.state in ('open', 'hcR', 'hcL', 'rsvL', 'rsvR')]
